@@ -24,6 +24,7 @@ RULE = (
     "there, plus generated double faults; non-trivial = >=2 callers overlap one in-flight invocation and a cancel lands "
     "while it is in flight, or expiry/eviction happens while it is in flight; distinct = distinct program"
 )
+RULE += '; template: the least recently used key still in flight when the cache overflows'
 LEVEL_TEXT = (
     "Exhaustive single-fault injection per generated program: every caller is cancelled at every loop iteration of the "
     "program's deterministic schedule; each run is judged by history predicates (sharing obligation, outcome of the "
@@ -412,7 +413,23 @@ def strategy(tier):
             "in_scope": draw(st.booleans()),
         }
 
-    return st.one_of(cases(), cases(), cases(), stale_completion(), evict_then_rejoin(), two_late())
+    @st.composite
+    def pending_at_lru_end(draw):
+        """the least recently used key is still IN FLIGHT when the cache overflows while newer keys have completed: the
+        eviction order is the order of use - which entries happen to be finished does not matter"""
+        limit = draw(st.sampled_from([2, 2, 3]))
+        callers = [{"key": 0, "at": 0}]  # long running
+        t = 0.25
+        for k in range(1, limit + 1):
+            callers.append({"key": k, "at": t})
+            t += 0.25
+        # key 1 .. limit-1 are still among the `limit` most recently used (key 0 is the one to go): calling them again must hit
+        again = draw(st.integers(2 if limit > 2 else 1, limit))
+        callers.append({"key": again if again < limit + 1 else limit, "at": t})
+        invs = [{"dur": 5, "out": "value"}] + [{"dur": 0, "out": "value"} for _ in range(limit)] + [{"dur": 0, "out": "value"}]
+        return {"limit": limit, "exp": None, "method": draw(st.booleans()), "callers": callers, "invs": invs, "inject": None, "in_scope": draw(st.booleans())}
+
+    return st.one_of(cases(), cases(), cases(), stale_completion(), evict_then_rejoin(), two_late(), pending_at_lru_end())
 
 
 def budget(tier):
